@@ -10,6 +10,7 @@ require (
 	github.com/attestantio/go-eth2-client v0.21.11
 	github.com/attestantio/vouch v0.0.0
 	github.com/google/uuid v1.6.0
+	github.com/holiman/uint256 v1.3.1
 	github.com/petermattis/goid v0.0.0-20241025130422-66cb2e6d7274
 	github.com/prysmaticlabs/go-bitfield v0.0.0-20240618144021-706c95b2dd15
 	github.com/rs/zerolog v1.33.0
@@ -33,7 +34,6 @@ require (
 	github.com/goccy/go-yaml v1.13.6 // indirect
 	github.com/hashicorp/hcl v1.0.0 // indirect
 	github.com/herumi/bls-eth-go-binary v1.36.1 // indirect
-	github.com/holiman/uint256 v1.3.1 // indirect
 	github.com/huandu/go-clone v1.7.2 // indirect
 	github.com/jackc/puddle/v2 v2.2.2 // indirect
 	github.com/jmespath/go-jmespath v0.4.0 // indirect
